@@ -391,6 +391,13 @@ func (ru *run) planReports(parent *chainBlock, plan *blockPlan) {
 	if len(gs) > 0 {
 		ru.r.Count("author:guarantees_planned", int64(len(gs)))
 	}
+	for i := range gs {
+		for j := i + 1; j < len(gs); j++ {
+			if gs[i].Report.AuthorizerHash == gs[j].Report.AuthorizerHash {
+				ru.r.Count("probe:two_cores_use_the_same_authorizer_in_one_block", 1)
+			}
+		}
+	}
 }
 
 func fmtCores(b []bool) string {
